@@ -281,6 +281,41 @@ def run_vhdl(cp, workdir):
             if line.startswith('"COUNT '):
                 counts.append(json.loads(json.loads(line)[6:]))
         shutil.rmtree(os.path.join(workdir, "meta.s%02d" % j[0]), ignore_errors=True)
+    # root cause of disagreements: the reference is Appendix D with the transpilers' conflict relation ("static"); charts
+    # that disagree are judged again against uSCXML's own selection scheme (variant "uscxml": one pass in post-fix order,
+    # which lets a state fall back to a later transition when its first enabled one is pre-empted)
+    bad = sorted(set(v["chart"] for v in verdicts if v["why"] in ("transitions", "exit-set", "entry-set", "next")))
+    if bad and not failures:
+        byid = {c.cid: c for c in cp.charts}
+        cf = os.path.join(workdir, "u.charts.ndjson")
+        ef = os.path.join(workdir, "u.eqs.ndjson")
+        eqs_of = {}
+        for si in range(nsh):
+            p_ = os.path.join(workdir, "s%02d.eqs.ndjson" % si)
+            if os.path.exists(p_):
+                with open(p_) as f:
+                    for line in f:
+                        q = json.loads(line)
+                        eqs_of[q["chart"]] = line
+        with open(cf, "w") as fc, open(ef, "w") as fe:
+            for cid in bad:
+                v = byid[cid].to_value()
+                v["alphabet"] = []
+                fc.write(chartmod.dumps(v) + "\n")
+                fe.write(eqs_of[cid])
+        cfgu = os.path.join(workdir, "VhdlStep.u.cfg")
+        write_cfg(cfgu, ["SPECIFICATION Spec", 'CONSTANT Variants = {"uscxml", "A2raw"}', "CHECK_DEADLOCK FALSE", "POSTCONDITION Done"])
+        cmd = tlc_cmd("VhdlStep.tla", cfgu, os.path.join(workdir, "meta.u"))
+        cmd[cmd.index("-config") + 1] = cfgu
+        (rc, out), = run_parallel([cmd], env={"CHARTS": cf, "EQS": ef}, timeout=6000)
+        pu = parse_tlc(out)
+        shutil.rmtree(os.path.join(workdir, "meta.u"), ignore_errors=True)
+        if not pu["ok"] or pu["error"]:
+            failures.append({"shard": "uscxml", "rc": rc, "tail": out[-1500:]})
+        still = set(v["chart"] for v in pu["verdicts"])
+        for v in verdicts:
+            if v["chart"] in bad and v["chart"] not in still:
+                v["class"] = "static"
     t2 = time.time()
     # keep the emitted text of charts with verdicts for the replay files
     keep = set(v["chart"] for v in verdicts)
